@@ -34,6 +34,8 @@ ElfCase(p) ==
    calls |-> <<[op |-> "load"], [op |-> "field", kind |-> "elf", f |-> "number_of_sections"],
                [op |-> "elf_sections", it |-> 0]>>
              \o [i \in 1..(p.n + 2) |-> [op |-> "next", it |-> 0, names |-> ElfNamesOk(p) \/ ElfNoFit(p)]]
+             \o <<[op |-> "count", it |-> 0], [op |-> "last", it |-> 0], [op |-> "elf_sections", it |-> 2], [op |-> "count", it |-> 2],
+                  [op |-> "last", it |-> 2], [op |-> "nth", it |-> 2, n |-> 1], [op |-> "next", it |-> 2, names |-> FALSE]>>
              \o <<[op |-> "elf_sections_deprecated", it |-> 1], [op |-> "next", it |-> 1, names |-> FALSE],
                   [op |-> "dbg", what |-> "elf"]>>,
    desc |-> [area |-> "elf"] @@ p]
